@@ -76,3 +76,18 @@ Theorem C08_nested_getitem_first_part_wins : forall ds key,
   end.
 Proof. exact nested_getitem_first. Qed.
 Print Assumptions C08_nested_getitem_first_part_wins.
+
+(* dict_of_lists: one entry per distinct (normalised) key in first-occurrence order with all its values;
+   mixed: the same dictionary with single values shown bare — for MultiDict and ResponseHeaders *)
+Require Import Webob.Proofs.C08_dicts.
+
+Theorem C08_dict_of_lists : forall norm rh l,
+  dict_of_lists_i norm rh l = dol_spec norm rh l.
+Proof. exact dict_of_lists_spec. Qed.
+Print Assumptions C08_dict_of_lists.
+
+Theorem C08_mixed : forall norm rh l,
+  mixed_i norm rh l =
+  VList (map (fun kv => VList [VStr (fst kv); show_vals (snd kv)]) (dol_spec norm rh l)).
+Proof. exact mixed_spec. Qed.
+Print Assumptions C08_mixed.
